@@ -313,7 +313,16 @@ def _decode(words):
     case = {'kind': 'scalar', 'model': model, 'args': args, 'w': _js(w), 'mu': mu, 'eta': eta,
             'via': _gen_alias(r, model), 'change_from': None}
     if R.NARGS[model] and r.below(4) == 0:
-        case['change_from'] = _gen_args(r, model)
+        # the instance's previous arguments: independent of the new ones, or (half of the histories) sharing a random subset of
+        # components with them - a setter that skips work "when alpha did not change" is only exercised by such a history
+        prev = _gen_args(r, model)
+        if r.below(2):
+            prev = [a if r.below(2) else b for a, b in zip(args, prev)]
+            case_shared = True
+        else:
+            case_shared = False
+        case['change_from'] = prev
+        case['shared_components'] = case_shared
     return case
 
 
@@ -350,7 +359,7 @@ def required_labels(tier):
     lb = ['model:' + m for m in MODELS]
     lb += ['window:transition', 'window:low', 'window:high', 'edge:zero_frequency', 'edge:inf_frequency', 'edge:tiny_frequency',
            'edge:huge_frequency', 'edge:near_frequency_guard', 'edge:small_modulus', 'negative_frequency',
-           'beyond_physical_range', 'route:change_args', 'route:alias', 'array:frequency', 'array:modvisc',
+           'beyond_physical_range', 'route:change_args', 'route:change_args_partial', 'route:alias', 'array:frequency', 'array:modvisc',
            'legacy:compared', 'legacy:guard_excluded', 'legacy:jitted', 'highfreq:checked', 'omp_env']
     lb += ['threads:%d' % k for k in range(1, 17)]
     return lb
@@ -543,6 +552,8 @@ def _evaluate_scalar(case):
                 model, tuple(args)) + ((probe_bad[0][:3], probe_bad[0][3], probe_bad[0][4]) if probe_bad else ((), 0, 0))))
     if case.get('change_from') is not None:
         c.label('route:change_args')
+        if any(float(a) == float(b) for a, b in zip(case['change_from'], args)):
+            c.label('route:change_args_partial')
     with repo_call(model + '.__call__'):
         got = complex(ref(w, mu, eta))
         got2 = complex(inst(w, mu, eta))
